@@ -55,6 +55,25 @@ impl<'a> WordInfos<'a> {
         parser.parse(&self.bytes[index..])
     }
 
+    /// Returns word info without resolving the dictionary form,
+    /// the reference can point to another dictionary
+    pub(crate) fn get_word_info_unresolved(
+        &self,
+        word_id: u32,
+        mut subset: InfoSubset,
+    ) -> SudachiResult<WordInfoData> {
+        if !self.has_synonym_group_ids {
+            subset -= InfoSubset::SYNONYM_GROUP_ID;
+        }
+        self.parse_word_info(word_id, subset)
+    }
+
+    /// Returns only the surface (headword) of the word
+    pub(crate) fn get_surface(&self, word_id: u32) -> SudachiResult<String> {
+        self.parse_word_info(word_id, InfoSubset::SURFACE)
+            .map(|wi| wi.surface)
+    }
+
     pub fn get_word_info(&self, word_id: u32, mut subset: InfoSubset) -> SudachiResult<WordInfo> {
         if !self.has_synonym_group_ids {
             subset -= InfoSubset::SYNONYM_GROUP_ID;
